@@ -85,12 +85,12 @@ def one(job):
         has_sh = os.path.exists(os.path.join(d, "demo.sh"))
         for tag, root in (("changed", wt), ("unchanged", "/repo")):
             if has_sh:
-                txt = re.sub(r"/tmp/wt2?/%s(?=[/ \n\"}])" % pid, root, open(os.path.join(d, "demo.sh")).read())
+                txt = re.sub(r"/tmp/wt\d?/%s(?=[/ \n\"}])" % pid, root, open(os.path.join(d, "demo.sh")).read())
                 open(os.path.join(d, "demo_%s.sh" % tag), "w").write(txt)
                 rc2, o2 = sh("WT=%s sh ./demo_%s.sh" % (root, tag), cwd=d, timeout=600)
                 res[tag] = {"compile": True, "exit": rc2, "tail": o2[-500:], "via": "demo.sh"}
                 continue
-            cmd = re.sub(r"/tmp/wt2?/%s(?=[/ ])" % pid, root, base).replace("@@", root).replace("${WT}", root).replace("$WT", root) + " -o demo_%s" % tag
+            cmd = re.sub(r"/tmp/wt\d?/%s(?=[/ ])" % pid, root, base).replace("@@", root).replace("${WT}", root).replace("$WT", root) + " -o demo_%s" % tag
             rc1, o1 = sh(cmd, cwd=d, timeout=300)
             if rc1 != 0:
                 res[tag] = {"compile": False, "out": o1[-300:]}
